@@ -1590,11 +1590,13 @@ func main() {
 		"inputs shorter than 2^30 bytes (uint32 size fields do not wrap)",
 		"the reference parser in this harness (refParse/refSerialize) states BIP144 + Bitcoin Core's UnserializeTransaction/ReadCompactSize",
 		"disk cache: a file read back holds what was written, a prefix of it (failed / interrupted write), or has extra bytes appended; a side file of the RIGHT length with other content is not generated (the ids in it are trusted as the block file itself is)",
-		"client histories: the blocktxn that completes a compact block arrives right after its cmpctblock (no other copy of the same block in between); refused copies have a Merkle root that does not match the header (the other refusal branch gives the block up)",
+		"client histories: besides cmpctblock directly followed by its blocktxn, an incomplete cmpctblock of the real list from a fourth peer at any point of the history (its blocktxn arrives after the block was taken) and the honest cmpctblock before / blocktxn after the refused copies are generated; other interleavings (two collectors of the same block completing in turn, a blocktxn for a collector made before a refused copy of ANOTHER list) are not. A refused copy either has a Merkle root that does not match the header or differs from the block in witness bytes only (same txids); a copy with matching txids, valid witness commitment and another defect (the genuinely wrongly mined block, which the node gives up by design) is not generated",
+		"size hypotheses of the theorems: sizes_spec bs.length < 2^32-1, block_weight_spec raw.length < 2^30, block_txids_spec / merkle_root_spec / block_object_txids_after_history < 2^32; disk_cache_exact: the hash function returns 32 bytes; client_copies_exact: header exactly 80 bytes, refused copies >= 80 bytes (netBlockReceived refuses payloads < 100 before the object is touched; Assemble() starts with the 80-byte header), final copy >= 81 bytes; block_object_history_independent: first content >= 80 bytes, the client's reset is handed >= 80 bytes (Op.WF)",
+		"the model run of a node history is skipped when copies + block exceed 60000 bytes (histogram client-model-skipped:large; every disk-cache history and the 251..300-transaction blocks): there only the property side (fresh Block of the real bytes, reference txids, Raw = header after every refused copy, block not given up) is evaluated",
 		"allocation counter of the model (Wire.allocTx) counts bytes REQUESTED (64-bit Go: pointer 8, slice header 24, struct sizes from unsafe.Sizeof); size-class rounding and the panic value of a refused input are covered by the tie bound A <= measured <= 2A+2048",
 	}
-	r.Finish("corpus (defect witnesses of F4, boundary shapes, Core's tx_valid/tx_invalid vectors from /repo/lib/test); BIP144 encodings of random transactions (0..300 inputs/outputs/witness items, scripts 0..65537 bytes, CompactSize boundaries 252..257/65535..65537) with and without trailing bytes; ONE length field (input count, scriptSig length, output count, pk_script length, witness item count, witness item length) at 252/253/65535/65536/65537 and inside the 5-byte CompactSize range, legacy and BIP144 layout, each also cut / with trailing bytes / with a damaged prefix, as a hand-built btc.Tx through both serialisers, and inside blocks; WriteVlen/PutULe/VLenSize/VULe/ReadVLen directly on values of all four CompactSize ranges; EVERY truncation and every byte position mutated 6-9 ways of a sample; every length field of a sample in each of the four CompactSize forms and with huge values; marker/flag combinations; emptied witnesses; unstructured bytes; structured transactions through both serialisers; random blocks (header Merkle field = root of the txids; also random / bit-flipped field, CVE-2012-2459 duplicated tails, dropped and swapped transactions) with trailing bytes, truncations, bit flips, changed count forms; histories of 1..8 calls (UpdateContent with valid / truncated / count-damaged / header-only / too-short contents, BuildTxListExt(false), BuildTxList, Clean, the client's reset) on ONE Block object; the Block object of a wanted block INSIDE THE NODE (synthetic chain, real client/network handlers through the dispatch mirror): 0..3 refused copies of a 1..300-transaction block — another transaction list behind the same header (tail / one dropped, one / some appended, one replaced, two swapped, only two left, coinbase + a stranger; 251..254 and 300 transactions so that the count changes its CompactSize width), a cut / bit-flipped body or a changed count byte — each through `block`, `cmpctblock` (complete) or `cmpctblock`+`blocktxn`, then the real block through any of the three; blocks of more than 16 KB parked on disk by netBlockReceived and read back by the real get_block_from_disk_cache (child process built from the repository's client package + one driver file through go build -overlay) with the .hashes side file complete, missing, extended, cut at the head / tail (by 1, 5, 31, 32, 33, 63..96 bytes) / a record boundary / anywhere, and the block file cut or missing. distinct = distinct input byte strings longer than 4 bytes",
-		"each byte string is run through btc.NewTx/SetHash/Serialize/SerializeNew/Weight/VSize/TxSize (blocks: NewBlock+BuildTxListExt true and false), through the Lean model (oracle_c09) and through an independent BIP144/Core reference parser; the property predicate (no panic; accepted iff the reference accepts; re-encoding = bytes consumed; txid/wtxid = double-SHA256 of the stripped/full serialisation; Size/NoWitSize/Weight/VSize/BlockWeight per BIP141; TxSize = consumed and never past the buffer; allocation ≤ 64·len+8192; MerkleRootMatch iff built completely, header field = reference Merkle root of the reference txids, no duplicated pair) is evaluated on the real code; for Block objects with a history: after every build the object carries exactly what a fresh Block of the bytes it holds now carries (error class, TxCount, Txs ids/sizes, BlockWeight, MerkleRootMatch), no panic, Txs[i].Hash = reference txid after BuildTxList, and every field after every call equals the stateful Lean model; for the node's Block object: after any refused copies the block handed to the chain thread (network.NetBlocks) is the real block with exactly what a fresh Block of its bytes carries and reference txids, the sender is not refused, no wrong copy is accepted, and after every refused copy the object equals the model run of the regenerated install / discard statement lists; for the disk cache: the files netBlockReceived wrote are the block and the model's side file, and reading back gives a loud failure or exactly the ids / sizes / weight of the block as decoded on arrival (and equals the model diskCacheGet); model = implementation on every field is the tie for the theorems in Props/C09.lean")
+	r.Finish("corpus (defect witnesses of F4, boundary shapes, Core's tx_valid/tx_invalid vectors from /repo/lib/test); BIP144 encodings of random transactions (0..300 inputs/outputs/witness items, scripts 0..65537 bytes, CompactSize boundaries 252..257/65535..65537) with and without trailing bytes; ONE length field (input count, scriptSig length, output count, pk_script length, witness item count, witness item length) at 252/253/65535/65536/65537 and inside the 5-byte CompactSize range, legacy and BIP144 layout, each also cut / with trailing bytes / with a damaged prefix, as a hand-built btc.Tx through both serialisers, and inside blocks; WriteVlen/PutULe/VLenSize/VULe/ReadVLen directly on values of all four CompactSize ranges; EVERY truncation and every byte position mutated 6-9 ways of a sample; every length field of a sample in each of the four CompactSize forms and with huge values; marker/flag combinations; emptied witnesses; unstructured bytes; structured transactions through both serialisers; random blocks (header Merkle field = root of the txids; also random / bit-flipped field, CVE-2012-2459 duplicated tails, dropped and swapped transactions) with trailing bytes, truncations, bit flips, changed count forms; histories of 1..8 calls (UpdateContent with valid / truncated / count-damaged / header-only / too-short contents, BuildTxListExt(false), BuildTxList, Clean, the client's reset) on ONE Block object; the Block object of a wanted block INSIDE THE NODE (synthetic chain, real client/network handlers through the dispatch mirror): 0..3 refused copies of a 1..300-transaction block — another transaction list behind the same header (tail / one dropped, one / some appended, one replaced, two swapped, only two left, coinbase + a stranger; 251..254 and 300 transactions so that the count changes its CompactSize width), a cut / bit-flipped body or a changed count byte, or the block's own transactions with other WITNESS bytes (one bit of an item, an item added, a witness stripped, the coinbase's reserved value flipped / resized / dropped, witness bytes on a block without commitment: txids and Merkle root unchanged; all six classes through all three entry paths on every run) — each through `block`, `cmpctblock` (complete) or `cmpctblock`+`blocktxn`, then the real block through any of the three, with an incomplete cmpctblock of the real list from a fourth peer at a random point of 1 history in 3 and the honest cmpctblock sent before the refused copies in half of the blocktxn deliveries; blocks of more than 16 KB parked on disk by netBlockReceived and read back by the real get_block_from_disk_cache (child process built from the repository's client package + one driver file through go build -overlay) with the .hashes side file complete, missing, extended, cut at the head / tail (by 1, 5, 31, 32, 33, 63..96 bytes) / a record boundary / anywhere, and the block file cut or missing. distinct = distinct input byte strings longer than 4 bytes",
+		"each byte string is run through btc.NewTx/SetHash/Serialize/SerializeNew/Weight/VSize/TxSize (blocks: NewBlock+BuildTxListExt true and false), through the Lean model (oracle_c09) and through an independent BIP144/Core reference parser; the property predicate (no panic; accepted iff the reference accepts; re-encoding = bytes consumed; txid/wtxid = double-SHA256 of the stripped/full serialisation; Size/NoWitSize/Weight/VSize/BlockWeight per BIP141; TxSize = consumed and never past the buffer; allocation ≤ 64·len+8192; MerkleRootMatch iff built completely, header field = reference Merkle root of the reference txids, no duplicated pair) is evaluated on the real code; for Block objects with a history: after every build the object carries exactly what a fresh Block of the bytes it holds now carries (error class, TxCount, Txs ids/sizes, BlockWeight, MerkleRootMatch), no panic, Txs[i].Hash = reference txid after BuildTxList, and every field after every call equals the stateful Lean model; for the node's Block object: after any refused copies the block handed to the chain thread (network.NetBlocks) is the real block with exactly what a fresh Block of its bytes carries and reference txids, the sender is not refused, no wrong copy is accepted, after EVERY refused copy the block is still wanted (a node that gives the valid block up is a failure, key client-block-given-up), Raw is the bare header, the error PostCheckBlock returned inside netBlockReceived (read from what the handler prints) has the decoder class of a fresh Block of that copy and of the model, and the object (Raw included) equals the model run of the regenerated install / discard statement lists; a late blocktxn for a block already taken hands nothing over; for the disk cache: the files netBlockReceived wrote are the block and the model's side file, and reading back gives a loud failure or exactly the ids / sizes / weight of the block as decoded on arrival (and equals the model diskCacheGet); model = implementation on every field is the tie for the theorems in Props/C09.lean")
 }
 
 // parseEncLine: the fields of a recorded `enc` request (see checkEncTx) back into a refTx
@@ -1666,7 +1668,7 @@ func replay(path string) {
 		replayObj(str("data"), str("ops"))
 	case "client":
 		dk, _ := doc.Replay["disk"].(bool)
-		replayClient(str("case"), dk, str("fault"))
+		replayClient(str("case"), dk, str("fault"), str("copy"))
 	case "enc":
 		if t, ok := parseEncLine(str("line")); ok {
 			checkEncTx(t, "replay")
